@@ -33,7 +33,7 @@ MANIFEST = {
                  'attribute kind x policy x datum under a recording '
                  'security policy; non-interference (two-run) and mediation '
                  '(policy log) oracles',
-    'text': 'A table of 81 access channels (client lookup, with / with '
+    'text': 'A table of 93 access channels (client lookup, with / with '
             'only, attribute / item / _.getattr / _[...] access in '
             'expressions, dtml-in items as objects and 2-tuples, '
             'skip_unauthorized, sequence-var-, first-/last-, the ten '
@@ -120,6 +120,52 @@ def ns_tree_refused_many(attr, datum, other=None):
             Node(tpId='k5', tpURL='u5', label='L5')]
     root = Node(tpId='root', tpURL='r', kids=kids, label='R')
     return None, {'root': root, 'URL': 'http://h/x', 'RESPONSE': Response()}
+
+
+class EqNode(Node):
+    """distinct objects that compare equal (wrappers of one document)"""
+
+    def __eq__(self, other):
+        return isinstance(other, EqNode)
+
+    def __hash__(self):
+        return 7
+
+
+def ns_tree_refused_equal(attr, datum, other=None):
+    kids = [EqNode(tpId='k1', tpURL='u1', label='L1'),
+            EqNode(tpId='k2', tpURL='u2', label=datum, refuse_item=True),
+            Node(tpId='k3', tpURL='u3', label='L3'),
+            EqNode(tpId='k4', tpURL='u4', label=datum + 'b',
+                   refuse_item=True),
+            EqNode(tpId='k5', tpURL='u5', label='L5')]
+    root = Node(tpId='root', tpURL='r', kids=kids, label='R')
+    return None, {'root': root, 'URL': 'http://h/x', 'RESPONSE': Response()}
+
+
+def ns_seq_refused_equal(attr, datum, other=None):
+    return None, {'seq': [EqNode(pubdata='shown1'),
+                          EqNode(pubdata=datum, refuse_item=True),
+                          EqNode(pubdata='shown2'),
+                          EqNode(pubdata=datum + 'c', refuse_item=True)]}
+
+
+def prerendered_sub(builder, subsrc):
+    """the read happens inside a sub-template of a plain (unguarded) class
+    that has been rendered stand-alone (without guards) before"""
+    def build(attr, datum, other=None):
+        from DocumentTemplate import HTML
+        client, ns = builder(attr, datum, other)
+        sub = HTML(subsrc.replace('ATTR', attr))
+        pre = dict(ns)
+        pre.setdefault('o', Node(**{attr: 'pre'}))
+        try:
+            sub(client, **pre)
+        except Exception:
+            pass
+        ns['presub'] = sub
+        return client, ns
+    return build
 
 
 def ns_client(attr, datum, other=None):
@@ -241,6 +287,28 @@ CHANNELS = [
      '</dtml-in>', ns_seq_refused_many, 'items'),
     ('item-in-batch-skip-many', '<dtml-in seq size=4 skip_unauthorized>'
      '<dtml-var pubdata>,</dtml-in>', ns_seq_refused_many, 'items'),
+    ('item-tree-skip-equal', '<dtml-tree root skip_unauthorized>'
+     '<dtml-var label>,</dtml-tree>', ns_tree_refused_equal, 'items'),
+    ('item-in-skip-equal', '<dtml-in seq skip_unauthorized><dtml-var pubdata>,'
+     '</dtml-in>', ns_seq_refused_equal, 'items'),
+    ('item-in-batch-skip-equal', '<dtml-in seq size=3 skip_unauthorized>'
+     '<dtml-var pubdata>,</dtml-in>', ns_seq_refused_equal, 'items'),
+    ('presub-expr', '<dtml-var presub>',
+     prerendered_sub(ns_obj, '[<dtml-var "o.ATTR">]'), 'expr'),
+    ('presub-if-expr', '<dtml-var presub>',
+     prerendered_sub(ns_truth, '[<dtml-if "o.ATTR">yes<dtml-else>no'
+                     '</dtml-if>]'), 'expr'),
+    ('presub-let-expr', '<dtml-var presub>',
+     prerendered_sub(ns_obj, '[<dtml-let z="o.ATTR"><dtml-var z>'
+                     '</dtml-let>]'), 'expr'),
+    ('presub-in-expr', '<dtml-var presub>',
+     prerendered_sub(ns_seq, '[<dtml-in "seq"><dtml-var "_[\'sequence-item\']'
+                     '.ATTR">,</dtml-in>]'), 'expr'),
+    ('presub-with', '<dtml-var presub>',
+     prerendered_sub(ns_obj, '[<dtml-with o><dtml-var ATTR></dtml-with>]'),
+     ''),
+    ('presub-getattr', '<dtml-var presub>',
+     prerendered_sub(ns_obj, '[<dtml-var "_.getattr(o, \'ATTR\')">]'), ''),
     ('sub-then-expr', '<dtml-var plainsub><dtml-var "o.ATTR">',
      after_plain_sub(ns_obj), 'expr'),
     ('subcall-then-expr', '<dtml-var "plainsub(None, _)"><dtml-var "o.ATTR">',
